@@ -171,6 +171,20 @@ const TOKENS: &[&str] = &[
     "$(", "${", "`", "$((", "$'", "#c", "f()", "a()", "()", "a$", "{ a; }", "( b )", "'f g'", "\"$v\"x",
 ];
 
+/// One representative per class that `char` predicates distinguish beyond ASCII: numeric but not
+/// a decimal digit (², ½, Ⅰ), non-ASCII decimal digits (fullwidth, Arabic-Indic), letters
+/// (lower, upper, title case, no case), non-ASCII white space (NBSP, NEL, U+2028, U+3000),
+/// zero-width and format characters, combining mark, C1 control, DEL is in ASCII, symbols,
+/// 3- and 4-byte encodings, private use, replacement character, the last scalar value.
+const UNICODE_REPS: &str = "²½Ⅰ１٣éΣßǅあ\u{a0}\u{85}\u{2028}\u{3000}\u{200b}\u{feff}\u{301}\u{80}€😀\u{e000}\u{fffd}\u{10ffff}";
+const PAIR_SECOND: [char; 12] = ['a', '1', '$', '\\', '\'', '"', '}', ')', '\n', ' ', '²', '１'];
+/// Lexer contexts; `X` is the hole.
+const CONTEXTS: &[&str] = &[
+    "X", "aX", "Xa", "a X b", "$X", "a$X", "\"$X\"", "\"X\"", "'X'", "\\X", "${X}", "${X", "${vX}", "${v:-X}", "${v#X}", "${#X}", "${vX", "$((X))", "$((1X2))", "$(X)", "`X`", "`\\X`",
+    "X=1", "aX=1", "a=X", "a=(X)", "X()", "fX() { :; }", "f() X", "<X", ">X", "3X>f", "X<f", "X>&1", ">&X", "<<X\nb\nX\n", "<<-X\n\tb\nX\n", "<<E\nX\nE\n", "<<'E'\nX\nE\n", "$'X'", "$'\\X'", "$'\\xX'", "$'\\cX'", "$'\\uX'", "$'\\0X'", "#X", "a #X\nb", "~X", "~X/b", "a:~X", "[X]", "a[X]b", "[!X]", "[[:X:]]",
+    "case a in X) ;; esac", "case X in a) ;; esac", "for X in a; do :; done", "for i in X; do :; done", "if X; then :; fi", "{ X; }", "(X)", "a | X", "a && X", "! X", "a;X", "a&X", "function X { :; }", "a\\\nX", "X\\\nb", "alias X=b", "a 2X>f",
+];
+
 fn corpus() -> Vec<(String, String)> {
     let dir = "/repo/yash-cli/tests/scripted_test";
     let mut scripts = vec![];
@@ -330,10 +344,31 @@ pub fn run(tier: Tier) -> i32 {
         next.par_iter().for_each(|s| check_input(&ctx, s, &counters));
         cur = next;
     }
+    // (d) every character class in every lexer context: contexts with one hole X (and with two
+    // adjacent holes) × all 128 ASCII characters + one representative per Unicode class the
+    // standard character predicates distinguish
+    let mut classes: Vec<char> = (0u8..128).map(|b| b as char).collect();
+    classes.extend(UNICODE_REPS.chars());
+    let before_d = counters.inputs.load(Relaxed);
+    CONTEXTS.par_iter().for_each(|cx| {
+        for a in &classes {
+            check_input(&ctx, &cx.replace('X', &a.to_string()), &counters);
+        }
+        let second: &[char] = if tier == Tier::Thorough { &classes } else { &PAIR_SECOND };
+        for a in &classes {
+            for b in second {
+                check_input(&ctx, &cx.replace('X', &format!("{a}{b}")), &counters);
+            }
+        }
+    });
+    let class_inputs = counters.inputs.load(Relaxed) - before_d;
     let cov = json!({
+        "character_class_inputs": class_inputs,
+        "character_class_contexts": CONTEXTS.len(),
+        "character_classes": classes.len(),
         "evaluations": counters.inputs.load(Relaxed) + counters.roundtrips.load(Relaxed),
         "distinct_nontrivial": counters.roundtrips.load(Relaxed),
-        "rule": format!("(a) every sequence of <= {tmax} tokens over {} tokens (words with every expansion kind, assignments, all reserved words, all operators, redirections with and without fd, here-document operators with a body, unclosed quotes / $( / ${{ / ` / $(( / $', comment, function headers); (b) every script of the scripted-test corpus ({} scripts) plus every single-token deletion, adjacent swap and truncation (and every character truncation of short ones); (c) every string of length <= {} over 25 raw characters incl. multi-byte. Every input must make the parser return Ok or Err without panic/hang; for every Ok tree without here-documents the printed text must parse to a structurally equal tree (Debug rendering with all Locations erased). Non-trivial = inputs that parsed and were round-tripped.", TOKENS.len(), scripts.len(), tier.pick(3, 4)),
+        "rule": format!("(a) every sequence of <= {tmax} tokens over {} tokens (words with every expansion kind, assignments, all reserved words, all operators, redirections with and without fd, here-document operators with a body, unclosed quotes / $( / ${{ / ` / $(( / $', comment, function headers); (b) every script of the scripted-test corpus ({} scripts) plus every single-token deletion, adjacent swap and truncation (and every character truncation of short ones); (c) every string of length <= {} over 25 raw characters incl. multi-byte; (d) lexer contexts with one hole x all 128 ASCII characters and Unicode class representatives, and with two adjacent holes. Every input must make the parser return Ok or Err without panic/hang; for every Ok tree without here-documents the printed text must parse to a structurally equal tree (Debug rendering with all Locations erased). Non-trivial = inputs that parsed and were round-tripped.", TOKENS.len(), scripts.len(), tier.pick(3, 4)),
         "samples": samples.take(),
         "token_sequence_inputs": token_inputs,
         "corpus_scripts": scripts.len(),
